@@ -89,6 +89,18 @@ def run(ctx):
                     wide.append(dict(steps=st_[:k + 1] + fill + st_[k + 1:]))
             st["replayed_with_filler_tables"] = len(wide)
             pool.run_all(wide, on_result, chunk=32)
+            # ... and with a tick and the CREATE DATABASE that follows it happening at the same time (every store has its own
+            # lock: the new database is created while the first page of the tick's flush is between serialisation and the
+            # file); the two steps touch different databases, so the promise after both is the promise of the path
+            both = []
+            for sc in scns:
+                st_ = sc["steps"]
+                for k in range(len(st_) - 1):
+                    if st_[k]["a"] == "tick" and st_[k + 1]["a"] == "createdb":
+                        both.append(dict(steps=st_[:k] + [dict(a="tick_createdb", n=st_[k + 1]["n"], v=0, exp=st_[k + 1]["exp"])] + st_[k + 2:]))
+                        break
+            st["replayed_with_tick_during_createdb"] = len(both)
+            pool.run_all(both, on_result, chunk=32)
             cov["states"] += res.distinct
             cov["transitions"] += res.generated
             cov["traces_validated_against_impl"] += st["replayed"]
